@@ -179,6 +179,22 @@ CLAIMS["C21"] = {
             "objects, variables) use the same RecursionStack but are only explored, not modelled.",
 }
 
+CLAIMS["C22"] = {
+    "technique": "Lean 4 proof (stable sort hides hash iteration order when keys are distinct) + translator-generated list of hash iteration sites + cross-process correspondence",
+    "text": "The translator lists, on every run, every place in apollo-compiler and apollo-smith where a HashMap/HashSet is iterated (token-level scan with scoping: for-loops, iter/keys/values/"
+            "into_iter/drain/extend on names bound to hash collections, crate-wide for fields and hash-returning functions) into Generated/HashSites.lean; theorem all_sites_audited (decide) "
+            "checks that list against the audited sites. Theorems: stable_sorted_unique / sort_hash_order_independent — for every list of earlier diagnostics and every two iteration orders "
+            "of hash-map entries with pairwise distinct locations, DiagnosticList::sort yields the same list; unused_variables_deterministic instantiates it for the model of "
+            "validate_unused_variables (HashMap collect with overwrite, removal of used names, iteration in an arbitrary order). Correspondence: the model's sorted unused-variable diagnostics "
+            "equal the implementation's on 4k/30k generated operations; and the whole pipeline (build, validate, serialize, diagnostics as text and JSON, schema introspection, "
+            "parse_mixed_validate, apollo-smith with and without an existing document) is run on identical inputs in 4/8 processes and compared output by output. "
+            "PARTIAL: order-independence is proved for the modelled site only; the other audited site (restoring several built-in scalars) is order-dependent but unreachable from text "
+            "(the harness checks on every input that a schema built from text defines all five built-in scalars); IndexMap/IndexSet insertion order and the absence of other sources of "
+            "nondeterminism (addresses, time, threads) are not modelled, only compared across processes.",
+    "note": TB + "The scanner (translator/hashsites.py) is trusted to find iteration sites; it does not see iteration through generic code or trait objects. Seeds of ahash/std RandomState differ per map and "
+            "per process (runtime-rng), which the cross-process comparison relies on.",
+}
+
 ALL = [f"C{i:02d}" for i in range(1, 34)]
 NOT_APPLICABLE = {p: "check not built yet in this session (planned, see DESIGN.md §9); not a claim that the technique cannot apply"
                   for p in ALL if p not in CLAIMS}
